@@ -16,5 +16,39 @@ CHECKS = {
 }
 
 ALL = ["C%02d" % i for i in range(1, 21)]
+
+def _c(technique, level):
+    return {"technique": technique, "level": level, "note": TB, "ref": "DESIGN.md §6"}
+
+
+CHECKS.update({
+    "C01": _c("runtime monitoring: totality / error-shape invariant monitor over recorded compile() events on hostile "
+              "generated texts, with a one-way grammar-recogniser oracle; exhaustive short token sequences",
+              "every compile event is checked for outcome shape (program or >=1 positioned, non-empty errors; no "
+              "panic / abort / hang), position bounds, and acceptance (invalid-by-construction families must be "
+              "rejected; accepted text must be accepted by an independent CEL.g4 recogniser)"),
+    "C03": _c("runtime monitoring: reference-model oracle (independent Python evaluator) over recorded executions of "
+              "generated well-typed programs",
+              "each execution's value / error class is compared with a reference evaluator written from the stated "
+              "semantics; map-ranged macros under every key order; programs outside the reference's fragment are "
+              "skipped, never judged"),
+    "C04": _c("runtime monitoring: round-trip oracle (tree -> text -> parsed public AST) over enumerated and random "
+              "expression trees, two independent renderers",
+              "the parsed AST of every rendering must equal the tree it was rendered from (&&/|| chains by operand "
+              "order); all trees with <= 2/3 operators, all chains to 64, all prefix runs to 6 are enumerated"),
+    "C06": _c("runtime monitoring: ordered host-call log + outcome compared with a reference evaluator with skip "
+              "tracking; exhaustive operator nestings",
+              "observes through call-logging host functions that no skipped operand is evaluated and no error "
+              "escapes from one; depth-2 nestings of all three operators over {true,false,error} enumerated "
+              "completely (depth 3 for &&/|| in thorough)"),
+    "C07": _c("runtime monitoring: exact equality of the ordered host-call log with the reference log, plus a "
+              "logical resolve-step counter (hook) checked against a linear bound",
+              "every leaf / call is wrapped by a logging host function; duplicated, reordered or missing "
+              "evaluations change the log; exponential re-evaluation exceeds the step bound (time-independent)"),
+    "C10": _c("runtime monitoring: outcome + ordered call log of macro programs compared with Python folds with "
+              "explicit early exit; exhaustive small ranges",
+              "all five macros over every list of length 0-4/0-6 from a 3-symbol alphabet and maps with 0-4 keys, "
+              "with pure, raising, logging and nested bodies"),
+})
 NOT_APPLICABLE = {p: "check not built yet in this session (work in progress; the runtime-monitoring "
                      "design for it is in DESIGN.md §6)" for p in ALL if p not in CHECKS}
